@@ -51,11 +51,6 @@ theorem child_keeps_every_slice (h : Heap) (s : GoSlice) (dir : Str) (t : GoSlic
   let r := read_keeps h _ t hv (childLoaders_spec h s dir).1
   ⟨r.1, r.2.1⟩
 
-theorem localDir_snoc (l : List (Option Loader)) (d : Str) : localDir (l ++ [some (.loc d)]) = some d := by
-  induction l with
-  | nil => simp [localDir]
-  | cons x rest ih => simp [localDir, ih]
-
 /-- the child's local loader is anchored at the child's directory, the parent's where it was -/
 theorem child_local_dirs (h : Heap) (s : GoSlice) (dir : Str) (hv : Valid h s) :
     localDir (read (childLoaders h s dir).1 (childLoaders h s dir).2) = some dir ∧
@@ -88,6 +83,53 @@ theorem siblings_keep_parent (h : Heap) (s : GoSlice) (dirs : List Str) (hv : Va
     read (siblings h s dirs).1 t = read h t ∧ full (siblings h s dirs).1 t = full h t :=
   let r := read_keeps h _ t ht (siblings_independent h s dirs hv).1
   ⟨r.1, r.2.1⟩
+
+/-- **what the functional origin model assumes**: after any number of nested loads the working directory of the
+referring model's local loader — `Level.lw` of `Model/PathsOrigin.lean`, read by `loader.Load` / `loader.Dir` and by the
+`baseDir` loop of `ApplyInclude` for the NEXT include entry / `extends.file` reference — is what it was, and every
+child is anchored at its own directory -/
+theorem siblings_see_parent_dir (h : Heap) (s : GoSlice) (dirs : List Str) (hv : Valid h s) :
+    localDir (read (siblings h s dirs).1 s) = localDir (read h s) ∧
+      ∀ c ∈ (siblings h s dirs).2, ∃ d ∈ dirs, localDir (read (siblings h s dirs).1 c) = some d := by
+  refine ⟨by rw [(siblings_keep_parent h s dirs hv s hv).1], ?_⟩
+  have key : ∀ (H : Heap) (base : List (Option Loader)) (cs : List GoSlice) (ds : List Str), EachReads H base cs ds →
+      ∀ c ∈ cs, ∃ d ∈ ds, localDir (read H c) = some d := by
+    intro H base cs
+    induction cs with
+    | nil => intro ds _ c hc; cases hc
+    | cons c0 cs ih =>
+      intro ds he c hc
+      cases ds with
+      | nil => exact absurd he (by simp [EachReads])
+      | cons d0 ds =>
+        obtain ⟨h0, hr⟩ := he
+        rcases List.mem_cons.mp hc with rfl | hc
+        · exact ⟨d0, by simp, by rw [h0]; exact localDir_snoc _ _⟩
+        · obtain ⟨d, hd, hl⟩ := ih ds hr c hc
+          exact ⟨d, by simp [hd], hl⟩
+  exact key _ _ _ _ (siblings_independent h s dirs hv).2
+
+/-- **the heap refines the functional origin model**: run any sequence of nested loads — includes (± `project_directory`)
+out of any model loaded so far, `extends.file` references in between, in any order — on the heap, reading the
+referring model's directory off its loader list each time; the `Level`s (local-loader directory, working directory) of
+the models created are exactly those of the functional model `runInclF`, where a model's level is fixed when it is
+created; at the end every model's list is still anchored where its level says and no earlier array was written -/
+theorem heap_levels_are_functional_levels (isDir : Str → Bool) (h : Heap) (models : List (GoSlice × Level))
+    (script : List NStep) (hok : LevelsOK h models) :
+    (runIncl isDir h models script).2.map Prod.snd = runInclF isDir (models.map Prod.snd) script ∧
+      LevelsOK (runIncl isDir h models script).1 (runIncl isDir h models script).2 ∧
+      Keeps h.next h (runIncl isDir h models script).1 :=
+  runIncl_refines isDir script h models hok
+
+/-- the hypothesis is satisfiable by what `toOptions` builds: the project's options, anchored at the project directory -/
+example :
+    let m := alloc Heap.empty [some (.remote 1)] 1
+    let o := toOptions m.1 m.2 ['/', 'w']
+    LevelsOK o.1 [(o.2, ⟨['/', 'w'], ['/', 'w']⟩)] := by
+  intro m o x hx
+  simp only [List.mem_singleton] at hx
+  subst hx
+  exact ⟨by decide, by decide⟩
 
 /-- **any interleaving of nested loads** (siblings, children of children — `runScript`): no array that existed before
 is changed, every list created on the way is still valid at the end, and the lists the script started with are still
